@@ -188,6 +188,7 @@ func (i *interpreter) ensureInit(pkg *ssa.Package, caller *frame) {
 		ok = true
 	}()
 	i.ps, i.depth, i.initStores = savedPS, savedDepth, savedTrack
+	i.panicSite = ""
 	if ok {
 		i.pkgInit[pkg] = 2
 	}
@@ -674,6 +675,7 @@ func (w *Worker) runPath(prefix []Decision) (sum PathSummary, ps *pathState) {
 	ps = newPathState(w, prefix)
 	w.i.ps = ps
 	w.i.depth = 0
+	w.i.panicSite = ""
 	w.solver.Reset()
 	sum.Outcome = "ok"
 	func() {
@@ -689,6 +691,9 @@ func (w *Worker) runPath(prefix []Decision) (sum PathSummary, ps *pathState) {
 			case unsupportedOp:
 				sum.Outcome = "unsupported"
 				sum.Detail = r.msg
+				if os.Getenv("GOSYM_DEBUG_SITE") != "" {
+					sum.Detail += " @ " + w.i.panicSite
+				}
 			case *runtime.TypeAssertionError:
 				sum.Outcome = "unsupported"
 				sum.Detail = "engine type confusion: " + r.Error() + " @ " + engineSite()
@@ -698,6 +703,9 @@ func (w *Worker) runPath(prefix []Decision) (sum PathSummary, ps *pathState) {
 			case runtime.Error:
 				sum.Outcome = "panic"
 				sum.Detail = r.Error()
+				if os.Getenv("GOSYM_DEBUG_SITE") != "" {
+					sum.Detail += " @ " + w.i.panicSite
+				}
 				if os.Getenv("GOSYM_DEBUG_PANIC") != "" {
 					debug.PrintStack()
 				}
